@@ -9,10 +9,17 @@ configuration under fairness without state constraint; one strict configuration 
 must exhibit F5 on the model).
 Bind: network schedules simulated by TLC from Gen_Gossip (2, 3 and 4 nodes) are executed
 on an in-memory mesh of REAL cluster.delegate + REAL cluster.Channel + REAL
-silence.Silences / nflog.Log (harness/c19); the harness is the network."""
+silence.Silences / nflog.Log (harness/c19); the harness is the network.
+Real peers: spec/GossipPeers.tla (membership as a real cluster.Peer sees it: join, leave,
+crash, replaced peer, restart + reconnect; the list of a reliable send is the CURRENT
+membership; Settle / readiness) is model-checked (MC_GossipPeers*.cfg; the cached send list
+and the stuck settle timeout must fail) and its TLC-generated schedules are replayed on
+2-6 REAL cluster.Peers (cluster.Create, memberlist on 127.0.0.1) by harness/peer through
+checks/peercommon.py, with control evidence for every "not delivered" verdict."""
 import json, os, re, hashlib, concurrent.futures
 from lib import vlib
 from lib.vlib import log
+from checks import peercommon
 
 PID = "C19"
 
@@ -119,18 +126,24 @@ def run(tier, v):
         name, cfg, num = p
         gp = os.path.join(wd, "gen_%s.jsonl" % name)
         return gen("gen_" + name, cfg, gp, num, seed, 2400 if thorough else 300), gp
-    with concurrent.futures.ThreadPoolExecutor(max_workers=3) as ex, concurrent.futures.ThreadPoolExecutor(max_workers=3) as gx:
+    skip_mc = bool(os.environ.get("C19_SKIP_MC") and vlib.REPO != "/repo")
+    with concurrent.futures.ThreadPoolExecutor(max_workers=3) as ex, concurrent.futures.ThreadPoolExecutor(max_workers=3) as gx, \
+            concurrent.futures.ThreadPoolExecutor(max_workers=1) as px:
         gens_f = [gx.submit(dogen, p) for p in plan]
         strict_f = ex.submit(vlib.tlc, PID, "mc_strict", "MC_Gossip", "MC_Gossip_strict.cfg", 2, 300)
+        peers_f = px.submit(peercommon.model_check, PID, tier, ["MC_GossipPeers_cached.cfg"] if skip_mc else None)
         mcs = list(ex.map(mc, cfgs))
         strict = strict_f.result()
         gens = [f.result() for f in gens_f]
+        pstates, ptrans, pper = peers_f.result()
     states = transitions = 0
     for cfg, r in mcs:
         vlib.tlc_must_pass(r, cfg)
         log("  %s: %d states generated, %d distinct, depth %d, %.1fs" % (cfg, r.generated, r.distinct, r.depth, r.wall))
         states += r.distinct
         transitions += r.generated
+    states += pstates
+    transitions += ptrans
     f5_in_model = strict.violated == "BadInputHarmlessStrict"
     if not f5_in_model and known_open:
         raise vlib.Inconclusive("MC_Gossip_strict: the implementation layer of Gossip.tla no longer exhibits F5 (%s, %s)" % (strict.violated, strict.error))
@@ -204,6 +217,8 @@ def run(tier, v):
             loopback.append("%d peers: %s" % (n, "converged (small and oversized silences and log entries on every peer)"
                                               if lr["counters"].get("converged") else "; ".join(lr.get("notes") or ["no result"])))
         log("  loopback (advisory): " + " | ".join(loopback))
+    # 4. real cluster.Peers on loopback (memberlist), schedules from Gen_GossipPeers, control evidence
+    peer_cov = peercommon.run_real_peers(PID, tier, v)
     samples = []
     for r in results:
         if r["samples"]:
@@ -211,16 +226,19 @@ def run(tier, v):
             break
     cov = {
         "states": states, "transitions": transitions,
-        "mc_configurations": {cfg: {"distinct": r.distinct, "generated": r.generated, "depth": r.depth} for cfg, r in mcs},
+        "mc_configurations": dict({cfg: {"distinct": r.distinct, "generated": r.generated, "depth": r.depth} for cfg, r in mcs}, **pper),
         "liveness_checked": "DeliveredEventually under WF(push/pull) without state constraint (MC_Gossip_live.cfg)",
         "f5_counterexample_in_model": f5_in_model,
-        "traces_validated_against_impl": total,
-        "replay_steps": sum(r["steps"] for r in results),
-        "evaluations": total,
-        "distinct_nontrivial": nontrivial,
+        "traces_validated_against_impl": total + peer_cov["schedules_replayed"],
+        "replay_steps": sum(r["steps"] for r in results) + peer_cov["steps"],
+        "evaluations": total + peer_cov["schedules_replayed"],
+        "distinct_nontrivial": nontrivial + peer_cov["nontrivial"],
+        "real_peers": peer_cov,
         "rule": "a case is one network schedule (60 steps) printed by TLC -simulate from Gen_Gossip for 2, 3 or 4 nodes; "
                 "non-trivial = the schedule delivers an oversized update over the reliable channel AND a gossip packet that "
-                "merges something new",
+                "merges something new; real-peer stage: a case is one schedule of 25 steps printed by TLC -simulate from "
+                "Gen_GossipPeers (2, 3 or 4 initial peers, up to 2 stops and 2 joins / restarts) replayed on real cluster.Peers; "
+                "non-trivial = an oversized update is broadcast to a connected peer after a membership change",
         "counters": counters,
         "drift": drift,
         "loopback_advisory": loopback,
@@ -229,24 +247,33 @@ def run(tier, v):
                   "(full states of up to 3 parts); 3 nodes with crash, stale membership, burst on a full oversize queue (cap 1); "
                   "liveness 2 nodes; thorough adds 3 nodes x two near-limit gossip messages and 3-node join orders. "
                   "Gen: %d distinct simulated schedules of 60 steps, 2/3/4 nodes, 11 updates with marshalled part sizes 700/701/708/709 around the limit, oversize queue "
-                  "capacity 200 (bursts of 199..205), <=4 lost and <=3 duplicated packets, <=2 crashes, <=5 injections per schedule" % total,
+                  "capacity 200 (bursts of 199..205), <=4 lost and <=3 duplicated packets, <=2 crashes, <=5 injections per schedule. "
+                  "GossipPeers MC: 3 identities (2 initial + 1 spare) x 2 oversized / 1 small + 1 oversized updates, 1 stop, 1 join or restart; "
+                  "readiness 3 identities, settle budgets 0 / 6 polls; thorough 4 identities. Real peers: %d schedules, part sizes "
+                  "150 / 420 / 700 (gossiped) and 701 / 709 / 1500 / 3100 (reliable)" % (total, peer_cov["schedules_replayed"]),
     }
     return "model_checking", cov, [
         "memberlist itself (failure detection, UDP/TCP, its use of Delegate: GetBroadcasts(3, 1398) per gossip target, NotifyMsg for "
-        "packets and reliable messages, LocalState/MergeRemoteState on push/pull and join) is trusted and restated by the harness",
-        "three lines of cluster.go are restated in harness/overlay/cluster/verif_export.go (retransmit = 3; AddState's send closure; "
-        "NewChannel call) because their memberlist-backed closures need a memberlist",
+        "packets and reliable messages, LocalState/MergeRemoteState on push/pull and join) is trusted; the in-memory stages restate its "
+        "calls, the real-peer stage runs it",
+        "the in-memory stages build their delegate and Channels through harness/overlay/cluster/verif_export.go without a memberlist; "
+        "Create (retransmit, GossipNodes) and AddState's closures (send, peers = current Members() without self, sendOversize = "
+        "SendReliable) are no longer trusted restatements: the real-peer stage runs the repository's own Create / AddState / Join / "
+        "Leave / reconnect on real peers",
         "updates are distinct silences / log entries (grow-only); last-writer-wins of versions is C09/C10",
         "bounded response of the gossip path is claimed only for updates never left behind by a full packet "
         "(two near-limit messages queued together can miss a peer without any counter; push/pull repairs it)",
         "F5 is a listed known finding; any other deviation of state or of the dropped/failure counters is a violation",
-    ]
+    ] + peercommon.ASSUMPTIONS
 
 
 def replay(path, v):
     binp = vlib.go_build_test(PID, "c19")
     wd = os.path.join(vlib.OUT, PID)
     data = json.load(open(path))
+    if isinstance(data, dict) and "peer_schedule" in data:
+        peercommon.replay(PID, path, v)
+        return
     inp = os.path.join(wd, "replay_in.jsonl")
     open(inp, "w").write(json.dumps(data) + "\n")
     out = os.path.join(wd, "replay_out.json")
